@@ -525,18 +525,28 @@ def h_consensus_labels(I, fi):
     res = I.call_function(fi, [data, g0], {}, force_inline=True)
     gens = P.ghost.get("generic_indices", [])
     dsl.cover(I, "labels.ran")
-    P.check("clabels.four-loops", len(gens) == 4, "nodes x own points, input data, nodes again (arbitrary element of each)", kind="post")
-    if len(gens) != 4:
+    has_nodes = not P.feasible(P.z(k) == 0)
+    want = {True: (3, 4), False: (1,)}[has_nodes]
+    P.check("clabels.loops", len(gens) in want, "nodes x own points, input data, nodes again (arbitrary element of each; a loop over nothing contributes nothing)", kind="post")
+    if len(gens) not in want:
         return
-    k1, t, j, k3 = gens
-    nd = node_id(k1)
-    own = alg.raw_app("own", nd, t, sort="Int")
-    s0 = log["stores"][0] if log["stores"] else None
-    P.check("clabels.own-points-labelled-with-their-node", s0 is not None and (s0[0] - own).is_zero() and isinstance(s0[1], Num) and (s0[1] - nd).is_zero(),
-            "every data point listed by a consensus node is labelled with that node", kind="post")
+    own_stores = []
+    if len(gens) == 4:
+        k1, t, j, k3 = gens
+        nd = node_id(k1)
+        own = alg.raw_app("own", nd, t, sort="Int")
+        s0 = log["stores"][0] if log["stores"] else None
+        P.check("clabels.own-points-labelled-with-their-node", s0 is not None and (s0[0] - own).is_zero() and isinstance(s0[1], Num) and (s0[1] - nd).is_zero(),
+                "every data point listed by a consensus node is labelled with that node", kind="post")
+        own_stores = log["stores"][:1]
+    elif len(gens) == 3:
+        k1, j, k3 = gens
+        P.check("clabels.node-without-own-points", not P.feasible(P.z(alg.raw_app("n_own", node_id(k1), sort="Int")) != 0), "a consensus node that lists no data point labels nothing", kind="post")
+    else:
+        j, k3 = gens[0], None
     xidx = alg.raw_app("idx_of", j, sort="Int")
     P.check("clabels.lookup-by-own-idx", len(log["asked"]) == 1 and (log["asked"][0] - xidx).is_zero(), "input point x is looked up by its own idx", kind="post")
-    rest = log["stores"][1:]
+    rest = log["stores"][len(own_stores):]
     if rest:
         P.check("clabels.uncovered-point-is-outlier", len(rest) == 1 and (rest[0][0] - xidx).is_zero() and isinstance(rest[0][1], Num) and (rest[0][1] - outl).is_zero() and z3.Not(covered(P.z(xidx))),
                 "a data point not listed by any consensus node is labelled with the outlier node (clone id -1)", kind="post")
@@ -544,9 +554,16 @@ def h_consensus_labels(I, fi):
     else:
         P.check("clabels.covered-point-keeps-its-node", covered(P.z(xidx)), "a data point listed by a consensus node keeps that label", kind="post")
         dsl.cover(I, "clabels.no-fill-in")
-    nd3 = node_id(k3)
-    npred = alg.raw_app("n_pred", nd3, sort="Int")
-    if log["edges"]:
+    if k3 is None:
+        P.check("clabels.no-node-no-edge", not log["edges"], "without consensus nodes nothing is attached", kind="post")
+        dsl.cover(I, "clabels.no-nodes")
+        nd3 = npred = None
+    else:
+        nd3 = node_id(k3)
+        npred = alg.raw_app("n_pred", nd3, sort="Int")
+    if k3 is None:
+        pass
+    elif log["edges"]:
         g, a, b = log["edges"][0]
         P.check("clabels.top-level-node-under-root", len(log["edges"]) == 1 and g.is_copy and isinstance(a, Num) and (a - rootn).is_zero() and (I.to_num(b) - nd3).is_zero() and P.z(npred) == 0,
                 "a consensus node without a parent is attached to the root, on a copy of the graph", kind="post")
@@ -559,7 +576,7 @@ def h_consensus_labels(I, fi):
     P.check("clabels.tree-built-from-these-labels", ok and res is built and log["update"] == 1, "the Tree is built from the data, the rooted copy of the graph and exactly these labels, and updated", kind="post")
 
 
-CLABEL_COVERS = ["labels.ran", "clabels.fill-in", "clabels.no-fill-in", "clabels.attach", "clabels.no-attach"]
+CLABEL_COVERS = ["labels.ran", "clabels.fill-in", "clabels.no-fill-in", "clabels.attach", "clabels.no-attach", "clabels.no-nodes"]
 
 
 
